@@ -734,7 +734,31 @@ pub fn spec() -> Spec<Case> {
         workers: 14,
         strategy: strategy().sboxed(),
         run,
-        fixed_cases: vec![],
+        fixed_cases: {
+            // everyday commands typed at a terminal (stdin is a pseudo-terminal) with their
+            // output redirected, after agent and human edits: one per hooked command
+            let tty = (CONTEXTS.len() - 1) as u8;
+            let mut v = Vec::new();
+            for cmd in 0..GRAMMAR.len() as u8 {
+                for flags in [vec![], vec![0u8]] {
+                    v.push(Case {
+                        hooks: 0,
+                        steps: vec![
+                            Step::Git { tpl: 21 },
+                            Step::Edit { ai: true, file: 0, n: 0 },
+                            Step::Git { tpl: 6 },
+                            Step::Git { tpl: 23 },
+                            Step::Edit { ai: true, file: 1, n: 1 },
+                            Step::Edit { ai: false, file: 0, n: 3 },
+                            Step::Git { tpl: 0 },
+                            Step::Gen { cmd, flags: flags.clone(), target: 0, tail: 0, ctx: tty },
+                            Step::Git { tpl: 5 },
+                        ],
+                    });
+                }
+            }
+            v
+        },
         assumptions: vec![
             "stderr is outside the property and not compared; tty-only output is never produced (no pty)".into(),
             "commands whose output enumerates all refs/objects (for-each-ref, show-ref, log --all, count-objects, gc) are not generated: git-ai's own notes ref would legitimately appear".into(),
